@@ -78,7 +78,7 @@ mod verif_fmtdata {
 
     // C01 (L2): scanner token -> formatter token keeps text and whitespace length; kinds map 1:1
     #[kani::proof]
-    #[kani::unwind(4)]
+    #[kani::unwind(6)]
     fn fmtdata_token_from_raw() {
         let rt: RawTokenType = kani::any();
         let ws: u32 = kani::any();
